@@ -242,8 +242,58 @@ fn mutate_text(rng: &mut Rng, s: &str) -> String {
     chars.into_iter().collect()
 }
 
-fn plan_from_history(c: &Case, rng: &mut Rng, out: &mut Vec<Planned>, per_step: usize) {
+fn plan_from_history(c: &Case, rng: &mut Rng, out: &mut Vec<Planned>, per_step: usize, sweep: bool) {
     let w = &c.world;
+    if sweep {
+        // systematic fold-lore edits on signed data: every subtrace descriptor of every fold of the last
+        // few deliveries gets positions at and beyond the end of the trace, with its length kept or zeroed
+        // (trace positions are not covered by signatures, so the data still verifies)
+        for s in c.history.steps.iter().rev().filter(|s| !s.input.cur.is_empty()).take(3) {
+            let Ok(view) = proj::decode(&s.input.cur) else { continue };
+            let tlen = proj::trace(&view.data).len() as u64;
+            for (i, st) in proj::states(&view.data).iter().enumerate() {
+                let proj::St::Fold(lore) = st else { continue };
+                for k in 0..lore.len().min(4) {
+                    for d in 0..2 {
+                        for pos in [tlen, tlen + 1, tlen + 7, 0x8000_0000u64, 0xffff_ffff] {
+                            for zero_len in [true, false] {
+                                let mut data = view.data.clone();
+                                data["trace"][i]["fold"]["lore"][k]["desc"][d]["pos"] = json!(pos);
+                                if zero_len {
+                                    data["trace"][i]["fold"]["lore"][k]["desc"][d]["len"] = json!(0);
+                                }
+                                if let Ok(bytes) = proj::encode_with_versions(&data, &view.data_version, &view.interpreter_version) {
+                                    let mut input = s.input.clone();
+                                    input.cur = bytes;
+                                    out.push(Planned { case: exec_case(&input, true, true), label: format!("tamper:fold[{i}].lore[{k}].desc[{d}].pos={pos}{}", if zero_len { ",len=0" } else { "" }), group: "signed-tamper" });
+                                }
+                            }
+                        }
+                    }
+                }
+            }
+        }
+        // systematic single-bit flips over the inner (rkyv) data of the last delivery: lengths, relative
+        // pointers and shared-pointer metadata are each hit by some flip
+        if let Some(s) = c.history.steps.iter().rev().find(|s| !s.input.cur.is_empty() && !s.input.prev.is_empty()) {
+            if let (Ok(inner), Ok(view)) = (proj::inner_bytes(&s.input.cur), proj::decode(&s.input.cur)) {
+                let bits = inner.len() * 8;
+                let stride = (bits / 1500).max(1);
+                let mut b = rng.below(stride);
+                while b < bits {
+                    let mut m = inner.clone();
+                    m[b / 8] ^= 1 << (b % 8);
+                    if let Ok(cur) = proj::wrap_inner(&m, &view.data_version, &view.interpreter_version) {
+                        let mut input = s.input.clone();
+                        input.cur = cur;
+                        input.call_results = CallResultsIn::empty();
+                        out.push(Planned { case: exec_case(&input, false, false), label: "bitflip:inner".into(), group: "byte-level" });
+                    }
+                    b += stride;
+                }
+            }
+        }
+    }
     for s in &c.history.steps {
         let Some(cv) = &s.cur_v else { continue };
         if s.input.cur.is_empty() || proj::trace(cv).is_empty() {
@@ -375,7 +425,7 @@ pub fn run(cfg: &Cfg) -> Report {
             observe(&c, st);
             let mut rng = Rng::derive(cfg.seed ^ 0xc01, 1, case);
             let mut out = vec![];
-            plan_from_history(&c, &mut rng, &mut out, per_step);
+            plan_from_history(&c, &mut rng, &mut out, per_step, case < if cfg.thorough { 24 } else { 3 });
             planned.lock().unwrap().extend(out.into_iter().map(|p| (case, p)));
         }
     });
@@ -523,8 +573,13 @@ pub fn run(cfg: &Cfg) -> Report {
     if cfg.thorough && !crate::sanitize::is_subrun() && cfg.only_case.is_none() {
         let eligible: Vec<(String, Value)> = planned.iter().filter(|(_, p)| !p.label.contains("deep-") && !p.label.contains("long-")).map(|(_, p)| (p.label.clone(), p.case.clone())).collect();
         let pick = |n: usize| -> Vec<(String, Value)> {
-            let stride = (eligible.len() / n.max(1)).max(1);
-            eligible.iter().step_by(stride).take(n).cloned().collect()
+            // half of the budget for the byte-level classes (decoders are where third-party unsafe code is), half uniform
+            let bytes: Vec<&(String, Value)> = eligible.iter().filter(|(l, _)| l.starts_with("bitflip") || l.starts_with("bytes") || l.starts_with("hr:")).collect();
+            let sb = (bytes.len() / (n / 2).max(1)).max(1);
+            let mut v: Vec<(String, Value)> = bytes.iter().step_by(sb).take(n / 2).map(|x| (*x).clone()).collect();
+            let stride = (eligible.len() / (n - v.len()).max(1)).max(1);
+            v.extend(eligible.iter().step_by(stride).take(n - v.len()).cloned());
+            v
         };
         match crate::sanitize::asan_bin() {
             Some(bin) => crate::sanitize::replay_cases("asan", &bin.to_string_lossy(), &pick(6000), cfg.threads, &format!("{verif_dir}/.cache/sentry-asan"), Duration::from_secs(180), "C01", &mut stats),
